@@ -111,6 +111,12 @@ class StubHTTPSession:
         c.held += 1
         # precondition of the real ConnectionPool.acquire(host, port) that Session.start calls first
         assert isinstance(request.url_info.port, int), 'Expect int. Got {}'.format(type(request.url_info.port))
+        if c.yields:
+            # waiting for a connection from the pool (0..n loop turns): the request is not on the wire yet
+            nth = c.nsessions
+            c.nsessions += 1
+            for _ in range(c.acquire_delay(nth)):
+                yield from asyncio.sleep(0)
         request.prepare_for_send()              # what Stream.write_request does first
         c.sent.append(request.to_bytes())
         c.urls.append(request.url_info.url)
@@ -174,6 +180,8 @@ class StubHTTPClient:
         self.bodies = bodies or {}
         self.held = 0                           # sessions that still hold a connection
         self.yields = False                     # True: start() and download() suspend once (for interleavings)
+        self.nsessions = 0
+        self.acquire_delay = lambda nth: 1      # loop turns the nth started session waits for its connection
 
     def answer(self, k, request):
         if self._answer:
